@@ -3,6 +3,6 @@
 # The one test the baseline lists as always failing (a 15-minute time-out) is skipped unless FULL=1.
 set -e
 cd /repo/_build
-cmake --build . >/dev/null
+cmake --build . >/dev/null 2>/verif/.work/baseline-build.err || { echo "BASELINE BUILD FAILED (see /verif/.work/baseline-build.err): 0% tests passed, build tests failed"; tail -5 /verif/.work/baseline-build.err; exit 2; }
 if [ -n "$FULL" ]; then exec ctest --test-dir /repo/_build -j8 --timeout 900; fi
 exec ctest --test-dir /repo/_build -j8 --timeout 900 -E 'read_write_cpp_sdai_ifc2x3_Bien-Zenker'
